@@ -37,3 +37,23 @@ Definition report_run (spec : pstate -> list (string * form)) (ops : list op) : 
   | RunErr i => ["RUN err " ++ show_nat i]
   | RunUnsup i => ["RUN unsup " ++ show_nat i]
   end.
+
+(* ------------------------------------------------------------------ *)
+(* Confirmation of a candidate violation inside Coq: the valuation is given
+   by printed variable names (the names z3 reports) *)
+Fixpoint lookup {V} (l : list (string * V)) (k : string) (d : V) : V :=
+  match l with [] => d | (k', v) :: r => if String.eqb k' k then v else lookup r k d end.
+Definition env_of (ivals : list (string * Z)) (bvals : list (string * bool)) : env :=
+  {| iv := fun x => lookup ivals (show_ivar x) 0%Z;
+     bv := fun b => lookup bvals (show_bvar b) false;
+     av := fun _ _ => 0%Z |}.
+Inductive confirm := CfNoRun | CfNoClause | CfResult (clause_holds model_admits : bool).
+Definition confirm_clause (spec : pstate -> list (string * form)) (ops : list op)
+           (key : string) (e : env) : confirm :=
+  match run ops with
+  | RunOk (Some st) =>
+      match find (fun kf => String.eqb (fst kf) key) (spec st) with
+      | Some (_, f) => CfResult (feval e f) (forallb (fun gf => feval e (snd gf)) (initialize st))
+      | None => CfNoClause end
+  | _ => CfNoRun
+  end.
